@@ -4,6 +4,7 @@ C36 — property theorems about the string model of the replication path decisio
 -/
 import SwV.Model.C36
 import SwV.Spec.C36
+import SwV.Gen.C36
 
 namespace SwV.Props.C36
 open SwV.Model.C36 SwV.Spec.C36
@@ -98,5 +99,136 @@ theorem sync_rename_into_ignored_witness :
   decide
 
 example : hasPrefix "/data/x".toList "/data".toList = true ∧ ("/data/x".toList.drop "/data".toList.length).head? = some '/' := by decide
+
+/-! ## T1 bridges: facts regenerated from the source by `extract` (props/C36/extract.json → `SwV.Gen.C36`)
+
+Each theorem states the text of the decisive Go conditions / call arguments as they stand in the working tree
+together with the model expression that mirrors them; an edit to the Go code changes the generated string and
+breaks the theorem of that name. -/
+
+/-- the two guards of `Replicator.Replicate` and the key mapping -/
+theorem bridge_replicate_guards :
+    SwV.Gen.C36.rep_from_other = "message.IsFromOtherCluster && r.sink.GetName() == \"filer\"" ∧
+    SwV.Gen.C36.rep_outside = "!strings.HasPrefix(key, r.source.Dir)" ∧
+    SwV.Gen.C36.rep_incremental = "r.sink.IsIncremental()" ∧
+    SwV.Gen.C36.rep_new_key = "newKey := util.Join(r.sink.GetSinkToDirectory(), dateKey, key[len(r.source.Dir):])" ∧
+    SwV.Gen.C36.rep_key_is_new_key = "key = newKey" ∧
+    (∀ (src snk : Str) (isFiler incr found fromOther : Bool) (key : Str) (old new : Option Bool) (np : Str),
+      (fromOther && isFiler) = true → replicate src snk isFiler incr found fromOther key old new np = []) ∧
+    (∀ (src snk : Str) (isFiler incr found fromOther : Bool) (key : Str) (old new : Option Bool) (np : Str),
+      (!hasPrefix key src) = true → replicate src snk isFiler incr found fromOther key old new np = []) ∧
+    (∀ (src snk : Str) (isFiler incr found fromOther : Bool) (key : Str) (d : Bool) (np : Str),
+      (fromOther && isFiler) = false → hasPrefix key src = true →
+      replicate src snk isFiler incr found fromOther key (some d) none np =
+        [.del (join [snk, dateKey incr, key.drop src.length]) d true]) := by
+  refine ⟨by decide, by decide, by decide, by decide, by decide, ?_, ?_, ?_⟩
+  · intro src snk isFiler incr found fromOther key old new np h
+    simp [replicate, h]
+  · intro src snk isFiler incr found fromOther key old new np h
+    unfold replicate; simp only [h, if_true]; split <;> rfl
+  · intro src snk isFiler incr found fromOther key d np h1 h2
+    simp [replicate, h1, h2]
+
+/-- which sink call `Replicate` makes, on which key, with which delete-chunks flag -/
+theorem bridge_replicate_calls :
+    SwV.Gen.C36.rep_is_delete = "message.OldEntry != nil && message.NewEntry == nil" ∧
+    SwV.Gen.C36.rep_delete_key = "key" ∧ SwV.Gen.C36.rep_delete_chunks = "message.DeleteChunks" ∧
+    SwV.Gen.C36.rep_is_create = "message.OldEntry == nil && message.NewEntry != nil" ∧
+    SwV.Gen.C36.rep_create_key = "key" ∧
+    SwV.Gen.C36.rep_is_empty = "message.OldEntry == nil && message.NewEntry == nil" ∧
+    SwV.Gen.C36.rep_update_key = "key" ∧ SwV.Gen.C36.rep_update_parent = "message.NewParentPath" ∧
+    SwV.Gen.C36.rep_found = "foundExisting" ∧
+    SwV.Gen.C36.rep_fallback_delete_key = "key" ∧ SwV.Gen.C36.rep_fallback_delete_chunks = "false" ∧
+    SwV.Gen.C36.rep_fallback_create_key = "key" ∧
+    (∀ (src snk : Str) (incr found : Bool) (key : Str) (d n : Bool) (np : Str), hasPrefix key src = true →
+      replicate src snk false incr found false key (some d) (some n) np =
+        (let k := join [snk, dateKey incr, key.drop src.length]
+         if found then [.update k np] else [.update k np, .del k d false, .create k])) := by
+  refine ⟨by decide, by decide, by decide, by decide, by decide, by decide, by decide, by decide, by decide,
+    by decide, by decide, by decide, ?_⟩
+  intro src snk incr found key d n np h
+  simp [replicate, h]
+
+/-- `FullPath.Child` and `buildKey` (filer.sync / filer.backup) -/
+theorem bridge_build_key :
+    SwV.Gen.C36.child_cond = "strings.HasSuffix(dir, \"/\")" ∧
+    SwV.Gen.C36.key_not_incremental = "!dataSink.IsIncremental()" ∧
+    SwV.Gen.C36.key_plain = "key = util.Join(targetPath, string(sourceKey)[len(sourcePath):])" ∧
+    SwV.Gen.C36.key_dated = "key = util.Join(targetPath, dateKey, string(sourceKey)[len(sourcePath):])" ∧
+    (∀ (dir name : Str), child dir name = if dir.getLast? = some '/' then dir ++ name else dir ++ '/' :: name) ∧
+    (∀ (src tgt k : Str), buildKey src tgt false k = join [tgt, k.drop src.length]) ∧
+    (∀ (src tgt k : Str), buildKey src tgt true k = join [tgt, dateKey true, k.drop src.length]) :=
+  ⟨by decide, by decide, by decide, by decide, fun _ _ => rfl, fun _ _ _ => rfl, fun _ _ _ => rfl⟩
+
+/-- the guards of the filer.sync process function: directory, delete, create -/
+theorem bridge_sync_guards :
+    SwV.Gen.C36.sync_old_key = "sourceOldKey = util.FullPath(resp.Directory).Child(message.OldEntry.Name)" ∧
+    SwV.Gen.C36.sync_new_key = "sourceNewKey = util.FullPath(message.NewParentPath).Child(message.NewEntry.Name)" ∧
+    SwV.Gen.C36.sync_dir_outside = "!strings.HasPrefix(resp.Directory, sourcePath)" ∧
+    SwV.Gen.C36.sync_is_delete = "message.OldEntry != nil && message.NewEntry == nil" ∧
+    SwV.Gen.C36.sync_delete_outside = "!strings.HasPrefix(string(sourceOldKey), sourcePath)" ∧
+    SwV.Gen.C36.sync_delete_key_src = "sourceOldKey" ∧
+    SwV.Gen.C36.sync_is_create = "message.OldEntry == nil && message.NewEntry != nil" ∧
+    SwV.Gen.C36.sync_create_outside = "!strings.HasPrefix(string(sourceNewKey), sourcePath)" ∧
+    SwV.Gen.C36.sync_create_key_src = "sourceNewKey" ∧
+    SwV.Gen.C36.sync_is_empty = "message.OldEntry == nil && message.NewEntry == nil" ∧
+    (∀ (src tgt : Str) (incr found : Bool) (dir : Str) (old new : Option (Bool × Str)) (np : Str),
+      (!hasPrefix dir src) = true → syncEv src tgt incr found dir old new np = some []) ∧
+    (∀ (src tgt : Str) (incr found : Bool) (dir : Str) (o : Bool × Str) (np : Str), hasPrefix dir src = true →
+      syncEv src tgt incr found dir (some o) none np =
+        (if !hasPrefix (child dir o.2) src then some []
+         else some [.del (buildKey src tgt incr (child dir o.2)) o.1 true])) ∧
+    (∀ (src tgt : Str) (incr found : Bool) (dir : Str) (n : Bool × Str) (np : Str), hasPrefix dir src = true →
+      syncEv src tgt incr found dir none (some n) np =
+        (if !hasPrefix (child np n.2) src then some []
+         else some [.create (buildKey src tgt incr (child np n.2))])) := by
+  refine ⟨by decide, by decide, by decide, by decide, by decide, by decide, by decide, by decide, by decide,
+    by decide, ?_, ?_, ?_⟩
+  · intro src tgt incr found dir old new np h
+    simp only [syncEv, h, if_true]
+  · intro src tgt incr found dir o np h
+    simp [syncEv, h]
+  · intro src tgt incr found dir n np h
+    simp [syncEv, h]
+
+/-- the update (rename) branch of the process function -/
+theorem bridge_sync_update :
+    SwV.Gen.C36.sync_old_inside = "strings.HasPrefix(string(sourceOldKey), sourcePath)" ∧
+    SwV.Gen.C36.sync_new_inside = "strings.HasPrefix(string(sourceNewKey), sourcePath)" ∧
+    SwV.Gen.C36.sync_both_not_incremental = "!dataSink.IsIncremental()" ∧
+    SwV.Gen.C36.sync_update_old_key = "oldKey := util.Join(targetPath, string(sourceOldKey)[len(sourcePath):])" ∧
+    SwV.Gen.C36.sync_update_new_parent = "message.NewParentPath = util.Join(targetPath, message.NewParentPath[len(sourcePath):])" ∧
+    SwV.Gen.C36.sync_update_key = "string(oldKey)" ∧ SwV.Gen.C36.sync_update_parent = "message.NewParentPath" ∧
+    SwV.Gen.C36.sync_found = "foundExisting" ∧
+    SwV.Gen.C36.sync_fallback_delete_key = "string(oldKey)" ∧ SwV.Gen.C36.sync_fallback_delete_chunks = "false" ∧
+    SwV.Gen.C36.sync_both_create_key = "newKey := buildKey(dataSink, message, targetPath, sourceNewKey, sourcePath)" ∧
+    SwV.Gen.C36.sync_both_create_arg = "newKey" ∧
+    SwV.Gen.C36.sync_moved_out_not_incremental = "!dataSink.IsIncremental()" ∧
+    SwV.Gen.C36.sync_moved_out_key_src = "sourceOldKey" ∧
+    SwV.Gen.C36.sync_moved_in = "strings.HasPrefix(string(sourceNewKey), sourcePath)" ∧
+    SwV.Gen.C36.sync_moved_in_key_src = "sourceNewKey" ∧
+    (∀ (src tgt : Str) (found : Bool) (dir : Str) (o n : Bool × Str) (np : Str), hasPrefix dir src = true →
+      hasPrefix (child dir o.2) src = true → hasPrefix (child np n.2) src = true → src.length ≤ np.length →
+      syncEv src tgt false found dir (some o) (some n) np =
+        (let oldT := join [tgt, (child dir o.2).drop src.length]
+         let parent := join [tgt, np.drop src.length]
+         if found then some [.update oldT parent]
+         else some [.update oldT parent, .del oldT o.1 false, .create (buildKey src tgt false (child np n.2))])) ∧
+    (∀ (src tgt : Str) (incr found : Bool) (dir : Str) (o n : Bool × Str) (np : Str), hasPrefix dir src = true →
+      hasPrefix (child dir o.2) src = false → hasPrefix (child np n.2) src = true →
+      syncEv src tgt incr found dir (some o) (some n) np = some [.create (buildKey src tgt incr (child np n.2))]) := by
+  refine ⟨by decide, by decide, by decide, by decide, by decide, by decide, by decide, by decide, by decide,
+    by decide, by decide, by decide, by decide, by decide, by decide, by decide, ?_, ?_⟩
+  · intro src tgt found dir o n np h1 h2 h3 h4
+    have : ¬ np.length < src.length := by omega
+    simp [syncEv, h1, h2, h3, this]
+  · intro src tgt incr found dir o n np h1 h2 h3
+    simp [syncEv, h1, h2, h3]
+
+/-- weakest supplement: hashes of the whole mirrored functions (`escapeKey` is the identity off Windows) -/
+theorem bridge_pins :
+    SwV.Gen.C36.src_Replicate = "7bf4b7e35d42c8d6" ∧ SwV.Gen.C36.src_genProcessFunction = "11459a516e797fab" ∧
+    SwV.Gen.C36.src_buildKey = "7cd07c41109d6a7c" ∧ SwV.Gen.C36.src_escapeKey = "6da2b6fc158f4d6a" ∧
+    SwV.Gen.C36.src_Child = "b20f273dc7210176" ∧ SwV.Gen.C36.src_Join = "4f2a33a966f6ce1f" := by decide
 
 end SwV.Props.C36
